@@ -32,7 +32,11 @@ type Channel struct {
 	client  *Client
 	session *xmpp.Session
 
-	join   chan joinCtx
+	join chan joinCtx
+	// joinQ is held by the one call that is queueing its record in join, queued
+	// is the record that was queued last (guarded by joinQ).
+	joinQ  chan struct{}
+	queued joinCtx
 	depart chan struct{}
 }
 
@@ -236,24 +240,40 @@ func (c *Channel) JoinPresence(ctx context.Context, p stanza.Presence, opt ...Op
 		done: ctx.Done(),
 		j:    joinChan,
 	}
-	// The record of an earlier call that has returned (refused by the room, or
-	// given up) may still be queued if no presence came to consume it; it would
-	// keep this call from even sending its request.
+	// One call at a time queues its record (the handler only ever takes records
+	// out).
 	select {
-	case old := <-c.join:
-		select {
-		case <-old.done:
-		default:
-			// Another call is still waiting: leave it alone.
-			c.join <- old
-		}
-	default:
-	}
-	select {
-	case c.join <- joinCtx:
+	case c.joinQ <- struct{}{}:
 	case <-ctx.Done():
 		return ctx.Err()
 	}
+queue:
+	for {
+		select {
+		case c.join <- joinCtx:
+			c.queued = joinCtx
+			break queue
+		default:
+		}
+		// The place is taken by the record of the call that queued last (or was,
+		// a moment ago, and the handler has taken the record out since). It is
+		// never taken out here while that call is still waiting: the handler
+		// would find nothing to hand the room's answer to.
+		select {
+		case <-c.queued.done:
+			// That call has returned (refused by the room, or given up). If no
+			// presence came to consume its record it is still queued and would
+			// keep this call from even sending its request.
+			select {
+			case <-c.join:
+			default:
+			}
+		case <-ctx.Done():
+			<-c.joinQ
+			return ctx.Err()
+		}
+	}
+	<-c.joinQ
 	go func(errChan chan<- error) {
 		defer cancel()
 
